@@ -172,4 +172,18 @@ theorem refused_trailers_fail (s : Streams) (k : Nat) (h : HeadersIn) (i : Nat) 
   subst hr
   exact reset_then_transitionAfter s1 k i reason init _
 
+
+/-- **reported as an error, not as a clean end**: once a stream that was not already reset is `Failed`
+    and its receive queue is drained, every poll of the application answers the reset error -/
+theorem failed_polls (s : Streams) (k : Nat) (tag : String) (fuel : Nat) (st : Stream) (reason : Reason)
+    (init : Initiator) (hf : Failed st reason init (s.stream k)) (hnr : st.state.isReset = false)
+    (hq : (s.stream k).pendingRecv = []) :
+    (∃ s', s.recvPollData k tag = (s', .err (.reset st.id reason init))) ∧
+    (∃ s', s.recvPollTrailers k tag = (s', .err (.reset st.id reason init))) ∧
+    (∃ s', Streams.recvPollResponse (fuel + 1) s k tag = (s', .err (.reset st.id reason init))) := by
+  unfold Failed at hf
+  rw [hnr] at hf
+  simp only [Bool.false_eq_true, if_false] at hf
+  exact polls_answer_error s k tag _ fuel (by rw [hf]) hq
+
 end H2V.Lemmas.ConnHttpP
